@@ -503,6 +503,26 @@ def deliver (g : IdGuard) (r : Row) : Option Row :=
 /-- `list(select)`: what iteration hands out for the fetched rows (`none` = Python None) -/
 def iterSelect (rows : List Row) : List (Option Row) := rows.map (deliver Extracted.iterNullGuard)
 
+/-! ## Several connections: one database per connection object
+
+`SelectResults._getConnection` = the `connection=` given to select / selectBy / `.connection(c)`, else the
+class's own; the statement is executed on THAT connection's database. -/
+
+/-- the databases behind the connection objects of a process (connection objects numbered) -/
+abbrev Store := Nat → Db
+
+/-- everything written through connection `c` so far amounts to its database being `d` -/
+def Store.write (s : Store) (c : Nat) (d : Db) : Store := fun c' => if c' = c then d else s c'
+
+/-- `_getConnection`: explicit connection if given, else the class's -/
+def connOf (explicit : Option Nat) (classConn : Nat) : Nat := explicit.getD classConn
+
+def selectOn (sch : Schema) (s : Store) (explicit : Option Nat) (classConn : Nat) (sel : Sel) : Option (List Row) :=
+  evalSelect sch (s (connOf explicit classConn)) sel
+
+def aggOn (sch : Schema) (s : Store) (explicit : Option Nat) (classConn : Nat) (p : Plan) : Option AggVal :=
+  evalAgg sch (s (connOf explicit classConn)) p
+
 /-! ## Plan level: keyword equalities -/
 
 inductive KwVal where
